@@ -24,6 +24,7 @@ RULE = ("Hypothesis: 1-4 well-formed sequences over a shared pool of 2 channels 
 RULE = RULE + " Rounds e-g: equal-ratio signatures, same-tick signatures of several inputs with a merge-order model, channel pools, silent notes, far shifts, staggered families."
 RULE = RULE + " Round h: all-silent families."
 RULE = RULE + " Round i: channel numbers on signature events."
+RULE = RULE + " Round j: an input repeated as a separate object with a longer closing rest."
 ASSUMPTIONS = ["the velocity kept by a fused note is not part of the statement",
                "control/program changes are generated as noise but their fate is not part of the statement"]
 TIERS = {"quick": dict(shards=8, examples=1200, alt_ppqn=[480], alt_shards=2),
@@ -91,6 +92,13 @@ def _case(draw, size=1):
             spec["shift"] = sh
             if spec["pad"] is not None:
                 spec["pad"] += sh
+    if draw(st.integers(0, 7)) == 0:
+        import copy as _copy
+        twin = _copy.deepcopy(seqs[draw(st.integers(0, len(seqs) - 1))])
+        end_t = max([n[3] for n in twin["notes"]] + [m[1] for m in twin["meta"]] + [0]) + twin.get("shift", 0)
+        twin["pad"] = end_t + draw(st.integers(1, 60))          # the same music with a longer closing rest, as a separate object
+        seqs.insert(draw(st.integers(0, len(seqs))), twin)
+        k = len(seqs)
     return {"seqs": seqs, "receiver": draw(st.sampled_from(["first", "fresh"])),
             "perm": draw(st.permutations(list(range(k)))), "twice": draw(st.integers(0, 5)) == 0}
 
